@@ -127,7 +127,7 @@ inductive Ctor
   | map_array | lower_case | filter_array | unique_array | array_sub | array_and | filter_mapping | map_mapping
   | keys | values | allocate_mapping | map_compose | map_compose_eq | save_array | save_string | save_mapping
   | save_nested | copy_nested | restore_nested | restore_array | restore_mapping | regexp | reg_assoc | sprintf_pad
-  | sprintf
+  | sprintf | unique_mapping | save_nested_map | save_depth | save_depth_map
   deriving Repr, DecidableEq
 
 def Ctor.ofName (s : String) : Option Ctor :=
@@ -181,15 +181,19 @@ def Ctor.ofName (s : String) : Option Ctor :=
   | "reg_assoc" => some .reg_assoc
   | "sprintf_pad" => some .sprintf_pad
   | "sprintf" => some .sprintf
+  | "unique_mapping" => some .unique_mapping
+  | "save_nested_map" => some .save_nested_map
+  | "save_depth" => some .save_depth
+  | "save_depth_map" => some .save_depth_map
   | _ => none
 
 /-- which limit bounds the result of a constructor -/
 def limitOfC (lim : Limits) : Ctor → Int
   | .allocate | .aggregate | .add_array | .add_array_self | .slice | .explode | .explode0 | .copy_array | .sort_array | .map_array | .filter_array | .unique_array | .array_sub | .array_and | .keys | .values | .regexp | .reg_assoc | .restore_array => lim.maxArray
   | .allocate_buffer | .add_buffer => lim.maxBuffer
-  | .map_insert | .map_aggregate | .map_add | .copy_mapping | .allocate_mapping | .filter_mapping | .map_mapping | .map_compose | .map_compose_eq | .restore_mapping => lim.maxMapping
+  | .map_insert | .map_aggregate | .map_add | .copy_mapping | .allocate_mapping | .filter_mapping | .map_mapping | .map_compose | .map_compose_eq | .restore_mapping | .unique_mapping => lim.maxMapping
   -- nesting depths reported by the LPC side: bounded by MAX_SAVE_SVALUE_DEPTH (copy, and restore since c9a3442)
-  | .copy_nested | .restore_nested => (NV.Gen.C04.maxSaveDepth : Int)
+  | .copy_nested | .restore_nested | .save_depth | .save_depth_map => (NV.Gen.C04.maxSaveDepth : Int)
   | _ => lim.maxString
 
 /-- by name, as the line judge needs it (a name that is not a constructor is judged as a string) -/
@@ -214,8 +218,13 @@ def judgeMapSeq (lim : Limits) (v : String) : List String :=
   | _ => []
 
 /-- an evaluation that returned normally although its program makes more code-less callbacks than the budget -/
-def judgeCallbacks (lim : Limits) : List String :=
-  (if lim.cost > 0 ∧ (lim.noCodeCallbacks : Int) > lim.cost + handlerAllowance then
+def judgeCallbacks (lim0 : Limits) (cost0 : Int) : List String :=
+  -- (against the budget the evaluation started with, when the obs line reports it: an `ev sizes set_limit` returns normally
+  -- under the old budget while the configured one is already the new, possibly clamped, value)
+  let lim : Limits := { lim0 with cost := if cost0 > 0 then cost0 else lim0.cost }
+  -- (every callback costs a tick of its own: a normal return after at least as many callbacks as the budget has ticks is
+  -- impossible; no allowance belongs here - the callbacks run before any error is delivered)
+  (if lim.cost > 0 ∧ (lim.noCodeCallbacks : Int) ≥ lim.cost then
     [s!"eval-exceeded uncharged-callbacks callbacks={lim.noCodeCallbacks} budget={lim.cost}"]
   else []) ++
   -- ... or although one of its regexp matches alone needs more node visits than the budget pays for
@@ -239,10 +248,12 @@ def judgeLine (s : JState) (line : String) : JState :=
     | none => s.flag [s!"malformed {line}"]
   | ["r", "ret", v] =>
     let s1 : JState := { s with pendingEv := s.pendingEv - 1, lastRet := true }
-    s1.flag (judgeMapSeq s.lim v ++ judgeCallbacks s.lim)
-  | "r" :: "ret" :: _ => ({ s with pendingEv := s.pendingEv - 1, lastRet := true } : JState).flag (judgeCallbacks s.lim)
+    s1.flag (judgeMapSeq s.lim v)
+  | "r" :: "ret" :: _ => { s with pendingEv := s.pendingEv - 1, lastRet := true }
   | "r" :: "err" :: _ => { s with pendingEv := s.pendingEv - 1, lastRet := false }
-  | "obs" :: rest => { s with lastRet := false }.flag (judgeObs s.lim s.lastRet rest)
+  | "obs" :: rest =>
+    { s with lastRet := false }.flag (judgeObs s.lim s.lastRet rest ++
+      (if s.lastRet then judgeCallbacks s.lim ((kvOf rest "cost0").getD 0) else []))
   | ["sz", "err"] => { s with pendingSz := s.pendingSz.drop 1 }
   | ["sz", "ok", n] =>
     match s.pendingSz, n.toInt? with
